@@ -346,7 +346,7 @@ def generate(rng, index, tier, extra):  # pylint: disable=unused-argument
             # an object parsed from a mutated but still accepted input
             from simverif import wirefault
             path = rng.choice(paths)
-            raw = rng.choice(corpus.accepted(path) or [b''])
+            raw = rng.choice(corpus.accepted_plus(path) or [b''])
             faults = wirefault.token_faults(rng, raw) if wirefault.is_text(raw) and rng.random() < 0.6 else \
                 wirefault.gen_faults(rng, raw, max_faults=1)
             spec = ['mutated', path, raw.hex(), faults]
@@ -361,6 +361,9 @@ def generate(rng, index, tier, extra):  # pylint: disable=unused-argument
         path = rng.choice(paths)
         seeds = corpus.accepted(path)
         made = None
+        derived = corpus.variants(path)
+        if derived and rng.random() < 0.4:
+            made = rng.choice(derived).hex()       # a valid input derived from a seed by editing and composing
         if rng.random() < 0.3:
             from simverif import workload
             channel = rng.choice(workload.CHANNELS)
